@@ -463,3 +463,112 @@ def c16(ctx):
     ctx.cov["rule"] = ("one evaluation = one complete session with one corrupted byte range; non-trivial = the corruption changed "
                        "the garbler's outcome (error/stall/crash) or hit the final result message; classes are kind:dir:field:outcome")
     ctx.check_drift()
+
+
+# ---------------------------------------------------------------------- C05
+STREAM_CFG = """SPECIFICATION Spec
+CONSTANTS
+  MaxSteps = %d
+  Sizes = %s
+  StepKinds = {"arith", "alias", "concat"}
+  TrackedOps = %s
+  Transitive = %s
+INVARIANT Safety
+CHECK_DEADLOCK FALSE
+"""
+
+STREAM_GEN_CFG = """SPECIFICATION Spec
+CONSTANTS
+  MaxSteps = %d
+  Sizes = {1, 2}
+  StepKinds = {"arith", "alias"}
+  TrackedOps = {"alias", "concat"}
+  Transitive = TRUE
+CONSTRAINT Emit
+CHECK_DEADLOCK FALSE
+"""
+
+
+@prop("C05")
+def c05(ctx):
+    thorough = ctx.tier == "thorough"
+    ctx.build()
+    ctx.assumptions += ["whole-circuit Compute is the reference for streaming (it is tied to the language semantics by C03)",
+                        "Stream.tla abstracts wire ids to one block per value; StreamTrace.tla works on the real ids"]
+    # (M) allocator + GC placement as coded: every program of <= 3 (4) steps
+    if thorough:
+        ctx.tlc_expect_ok("Stream", "Stream_mc.cfg", name="stream-mc", timeout=3400,
+                          cfg_text=STREAM_CFG % (3, "{1, 2}", '{"alias", "concat"}', "TRUE"), heap="12g")
+        ctx.tlc_expect_ok("Stream", "Stream_mc.cfg", name="stream-sim-5", mode="sim", sim="num=40000", depth=30, timeout=3400, workers=8,
+                          cfg_text=STREAM_CFG % (5, "{1, 2}", '{"alias", "concat"}', "TRUE"))
+    else:
+        ctx.tlc_expect_ok("Stream", "Stream_mc.cfg", name="stream-mc", timeout=3400,
+                          cfg_text=STREAM_CFG % (2, "{1, 2}", '{"alias", "concat"}', "TRUE"))
+        ctx.tlc_expect_ok("Stream", "Stream_mc.cfg", name="stream-sim-4", mode="sim", sim="num=600", depth=30, timeout=3400, workers=4,
+                          cfg_text=STREAM_CFG % (4, "{1, 2}", '{"alias", "concat"}', "TRUE"))
+    # vacuity guards: the model distinguishes the two repaired defects
+    for nm, steps, sizes, tracked, trans in (("one-level-aliases", 3, "{1}", '{"alias", "concat"}', "FALSE"),
+                                             ("concat-untracked", 2, "{1, 2}", '{"alias"}', "TRUE")):
+        r = ctx.tlc("Stream", "Stream_mc.cfg", name="stream-mc-" + nm, cfg_text=STREAM_CFG % (steps, sizes, tracked, trans))
+        if r["status"] != "invariant":
+            raise Broken("Stream.tla no longer finds the %s counterexample: %s" % (nm, r["status"]))
+    ctx.cov["spec_detects"] = ["one-level-aliases", "concat-untracked"]
+    trace = os.path.join(ctx.tmp, "stream_trace.ndjson")
+    res = os.path.join(ctx.tmp, "c05res.ndjson")
+    ctx.run_vh(["c05", "run", trace, res, 600 if thorough else 60], timeout=3400)
+    n = ctx.absorb(res)
+    # (G) abstract SSA programs enumerated from Stream.tla, rendered as MPCL and run in both modes
+    g = ctx.tlc("StreamGen", "Stream_gen.cfg", mode="sim", workers=1, sim="num=%d" % (3000 if thorough else 300), depth=7,
+                name="stream-gen", timeout=3000, cfg_text=STREAM_GEN_CFG % 4)
+    if g["status"] != "ok" or not g["cases"]:
+        raise Broken("StreamGen failed: %s\n%s" % (g["status"], g["out"][-2000:]))
+    seen, uniq = set(), []
+    for cse in sorted(g["cases"], key=lambda c: -len(c["steps"])):
+        k = json.dumps(cse, sort_keys=True)
+        if k not in seen and len(cse["steps"]) >= 2:
+            seen.add(k)
+            uniq.append(cse)
+    uniq = uniq[:(6000 if thorough else 400)]
+    acases = os.path.join(ctx.tmp, "c05abs.ndjson")
+    write_ndjson(acases, uniq)
+    ares = os.path.join(ctx.tmp, "c05absres.ndjson")
+    ctx.run_vh(["c05", "abstract", acases, ares], timeout=3400)
+    ctx.absorb(ares)
+    ctx.cov["abstract_programs_replayed"] = len(uniq)
+    rows = read_ndjson(trace)
+    ctx.cov["trace_events"] = len(rows)
+    nprog = 1 + len([r for r in rows if r["ev"] == "reset"])
+    t = ctx.tlc("StreamTrace", "StreamTrace.cfg", mode="trace", files=[trace], timeout=3000)
+    if t["status"] == "invariant":
+        ctx.violation("trace:NoClobber", "a step of a real streaming run reads a wire id that was recycled and overwritten "
+                      "(or a value no longer maps to the ids it was created with)", t["out"][-2500:])
+    elif t["status"] != "ok":
+        raise Broken("StreamTrace failed: %s\n%s" % (t["status"], t["out"][-3000:]))
+    else:
+        ctx.cov["traces_validated_against_impl"] += nprog
+    # binding self-test: overwrite an id between producer and consumer
+    r2 = [json.loads(json.dumps(r)) for r in rows]
+    done = False
+    for i, r in enumerate(r2):
+        if r["ev"] == "step" and r["op"] not in ("gc", "ret") and r["outs"] and r["outs"][0]["ids"]:
+            for j in range(i + 1, len(r2)):
+                if r2[j]["ev"] != "step":
+                    break
+                if any(x["v"] == r["outs"][0]["v"] and x["c"] == 0 for x in r2[j]["ins"]) and j > i + 1:
+                    fake = {"ev": "step", "idx": 9999999, "op": "umult", "ins": [], "outs": [{"v": 999999, "c": 0, "ids": r["outs"][0]["ids"]}]}
+                    r2.insert(i + 1, fake)
+                    done = True
+                    break
+        if done:
+            break
+    if done:
+        p = os.path.join(ctx.tmp, "selftest", "stream_trace.ndjson")
+        os.makedirs(os.path.dirname(p), exist_ok=True)
+        write_ndjson(p, r2)
+        x = ctx.tlc("StreamTrace", "StreamTrace.cfg", mode="trace", files=[p], name="stream-selftest")
+        if x["status"] != "invariant":
+            raise Broken("binding self-test: StreamTrace accepted an overwritten live wire id")
+        ctx.cov["binding_selftest"] = {"overwritten-id": x["status"]}
+    ctx.cov["rule"] = ("one evaluation = one (program, input pair) run in both modes; programs are alias-heavy (casts, constant shifts, "
+                       "slices, array updates, concatenations, struct copies) templates and seeded generated programs; all are non-trivial; "
+                       "classes: template / generated / big-ids (> 65535 live wire ids) / rejected (does not compile)")
